@@ -249,6 +249,27 @@ func runC13(c *Ctx) {
 					drained = true
 				}
 			})
+			// … or a helper called before the loop that does exactly that with the channel it is handed
+			for _, ci := range flow.CallInstrs(rl.fn) {
+				h := flow.StaticCallee(ci)
+				if h == nil || h.Blocks == nil || !c.P.IsLibrary(h) || !flow.Dominates(ci, rl.write) || rl.loop.Blocks[ci.Block()] {
+					continue
+				}
+				for i, a := range ci.Common().Args {
+					if a != ackv || i >= len(h.Params) {
+						continue
+					}
+					hp := h.Params[i]
+					flow.Instrs(h, func(in ssa.Instruction) {
+						sl, ok := in.(*ssa.Select)
+						if ok && !sl.Blocking && len(sl.States) == 1 && sl.States[0].Dir == types.RecvOnly && sl.States[0].Chan == ssa.Value(hp) {
+							if flow.PathAvoiding(h, nil, flow.IsReturn, func(x ssa.Instruction) bool { return x == ssa.Instruction(sl) }) == nil {
+								drained = true
+							}
+						}
+					})
+				}
+			}
 			for _, mk := range mks {
 				k, ok := flow.ConstInt(mk.Size)
 				switch {
@@ -534,9 +555,29 @@ func (c *Ctx) chanOrigins(v ssa.Value, depth int, seen map[ssa.Value]bool) []*ss
 		return []*ssa.MakeChan{x}
 	case *ssa.ChangeType:
 		return c.chanOrigins(x.X, depth, seen)
+	case *ssa.Call:
+		if g := flow.StaticCallee(x); g != nil && g.Blocks != nil && c.P.IsLibrary(g) {
+			for _, rv := range flow.ReturnValues(g, 0) {
+				if !flow.IsNilConst(rv) {
+					out = append(out, c.chanOrigins(rv, depth+1, seen)...)
+				}
+			}
+		}
+	case *ssa.Extract:
+		if call, ok := x.Tuple.(*ssa.Call); ok {
+			if g := flow.StaticCallee(call); g != nil && g.Blocks != nil && c.P.IsLibrary(g) {
+				for _, rv := range flow.ReturnValues(g, x.Index) {
+					if !flow.IsNilConst(rv) {
+						out = append(out, c.chanOrigins(rv, depth+1, seen)...)
+					}
+				}
+			}
+		}
 	case *ssa.Phi:
 		for _, e := range x.Edges {
-			out = append(out, c.chanOrigins(e, depth, seen)...)
+			if !flow.IsNilConst(e) {
+				out = append(out, c.chanOrigins(e, depth, seen)...)
+			}
 		}
 	case *ssa.Parameter:
 		f := x.Parent()
